@@ -5,4 +5,5 @@ HARNESSES = [
     dict(name='tables', need_schema=True),
     dict(name='store', need_schema=True, extra_flags=['-ldl']),
     dict(name='rot', need_lib=True),
+    dict(name='codec', need_schema=True),
 ]
